@@ -3,12 +3,18 @@
 // and panics at exactly poll k; every k of a small program is enumerated.
 // Observed per (program, k): host-call log, how Run ended, scope depth and
 // pending labels at rest (verif hooks), globals seen by a follow-up script.
-// Also: host-function panics at the j-th call, and stack limits L x depths d.
+// Also: host-function panics at the j-th call, stack limits L x depths d (small, and around the widths a narrowed
+// depth counter would wrap at: deep chains run in child processes), host panics travelling through Go host functions
+// that call script callbacks (BCase).
 package main
 
 import (
+	"context"
 	"fmt"
 	"math"
+	"os"
+	"os/exec"
+	"runtime/debug"
 	"strings"
 	"time"
 
@@ -220,47 +226,29 @@ func progJS(p minijs.Program) string {
 }
 
 func main() {
+	if spec := os.Getenv(childEnv); spec != "" {
+		stackChild(spec)
+		return
+	}
 	env := FromFlags("c18")
 	env.Import = "Otto.C18.Corr"
-	env.Rule = "MiniJS programs (70% without try), global and function mode; for each program the interrupt is injected at EVERY polling point k = 1..N (N <= 40 quick / 250 thorough; a seeded sample of 12 points beyond that), plus host-function panics at the j-th call and stack limits L in 1..8 x depths 0..L+2; non-trivial = distinct (program, k) with 1 < k < N"
+	env.Rule = "MiniJS programs (70% without try), global and function mode; for each program the interrupt is injected at EVERY polling point k = 1..N (N <= 40 quick / 250 thorough; a seeded sample of 12 points beyond that), plus host-function panics at the j-th call, stack limits L in 1..8 x depths 0..L+2 and around 2^7, 2^8, 2^15, 2^16 and 70000 (the deep ones in child processes), and host panics below 19 kinds of Go host functions that call script callbacks x 6 faults x no try / try-catch / try-finally around the call (BCase); non-trivial = distinct (program, k) with 1 < k < N"
 	maxAll := 40
 	if env.Tier == "thorough" {
 		maxAll = 250
 	}
 	progs := 0
-	// stack limits first (cheap, exhaustive)
+	// stack limits first (cheap, exhaustive); the deep ones run in child processes, started now and collected at the end
+	deep := startDeepStack()
 	for L := 1; L <= 8; L++ {
 		for d := 0; d <= L+2; d++ {
-			vm := otto.New()
-			vm.SetStackDepthLimit(L)
-			src := fmt.Sprintf(`var reached = 0; function f(n){ reached++; if (n > 1) { return f(n - 1); } return 0; } var caught = "none"; try { if (%d > 0) f(%d); } catch (e) { caught = e.name; } caught + "," + reached`, d, d)
-			o := RunJS(vm, src)
-			res := "!"
-			if o.Panic == nil && o.Err == nil {
-				res = o.Val.String()
-			}
-			depth, _ := vm.VerifScopeDepth()
-			var caught string
-			var reached int
-			parts := strings.Split(res, ",")
-			if len(parts) == 2 {
-				caught = parts[0]
-				fmt.Sscanf(parts[1], "%d", &reached)
-			}
-			cls := int64(0)
-			switch caught {
-			case "none":
-				cls = 0
-			case "RangeError":
-				cls = 3
-			default:
-				cls = 9
-			}
-			// a follow-up deep call after the RangeError must behave the same (depth restored)
-			o2 := RunJS(vm, fmt.Sprintf(`var c2 = "none"; try { if (%d > 0) f(%d); } catch (e) { c2 = e.name; } c2`, d, d))
-			same := o2.Panic == nil && o2.Err == nil && o2.Val.String() == caught
-			env.Add(fmt.Sprintf("StackCase %d %d %s %d %s %s", L, d, Cz(cls), reached, Cz(int64(depth)), Cbool(same)),
-				fmt.Sprintf("stack limit=%d nesting=%d -> %s depthAtRest=%d repeatSame=%v", L, d, res, depth, same), "stack", d >= L-1 && d <= L+1)
+			addStack(env, runStack(0, L, d), d >= L-1 && d <= L+1)
+		}
+	}
+	// the widths a narrowed depth counter would wrap at (8 bits; 16 bits: deep, see startDeepStack) and a few more
+	for _, L := range []int{127, 128, 129, 255, 256, 257, 300, 1000} {
+		for d := L - 2; d <= L+1; d++ {
+			addStack(env, runStack(0, L, d), true)
 		}
 	}
 	// the same with built-in (native) frames in the chain: they count against the limit like script frames
@@ -270,57 +258,18 @@ func main() {
 				if shape >= 2 && d > 4 {
 					continue
 				}
-				vm := otto.New()
-				vm.SetStackDepthLimit(L)
-				_ = vm.Set("nest", func(c otto.FunctionCall) otto.Value {
-					v, err := vm.Run(c.Argument(0).String())
-					if err != nil {
-						r, _ := vm.ToValue("ERR:" + err.Error())
-						return r
-					}
-					return v
-				})
-				var decl, call string
-				if shape == 3 {
-					decl = `function f(n){ reached++; if (n > 0) { return (0, eval)("f(" + (n - 1) + ")"); } return 0; }`
-					call = fmt.Sprintf("f(%d)", d)
-				} else if shape == 4 {
-					decl = `function f(n){ reached++; if (n > 0) { var r = nest("f(" + (n - 1) + ")"); if (typeof r === "string" && r.indexOf("ERR:RangeError") === 0) { throw new RangeError("nested"); } return r; } return 0; }`
-					call = fmt.Sprintf("f(%d)", d)
-				} else if shape == 1 {
-					decl = `function f(n){ reached++; if (n > 1) { return f(n - 1); } var r = Math.abs(-1); return r; }`
-					call = fmt.Sprintf("f(%d)", d-1)
-					if d == 1 {
-						call = "Math.abs(-1)"
-					}
-				} else {
-					decl = `function f(n){ reached++; if (n > 0) { return [n].map(g)[0]; } return 0; } function g(n){ reached++; return f(n - 1); }`
-					call = fmt.Sprintf("f(%d)", d)
-				}
-				src := fmt.Sprintf(`var reached = 0; %s var caught = "none"; try { %s; } catch (e) { caught = e.name; } caught + "," + reached`, decl, call)
-				o := RunJS(vm, src)
-				res := "!"
-				if o.Panic == nil && o.Err == nil {
-					res = o.Val.String()
-				}
-				depth, _ := vm.VerifScopeDepth()
-				var caught string
-				var reached int
-				if parts := strings.Split(res, ","); len(parts) == 2 {
-					caught = parts[0]
-					fmt.Sscanf(parts[1], "%d", &reached)
-				}
-				cls := int64(9)
-				switch caught {
-				case "none":
-					cls = 0
-				case "RangeError":
-					cls = 3
-				}
-				o2 := RunJS(vm, fmt.Sprintf(`var c2 = "none"; reached = 0; try { %s; } catch (e) { c2 = e.name; } c2`, call))
-				same := o2.Panic == nil && o2.Err == nil && o2.Val.String() == caught
-				env.Add(fmt.Sprintf("StackCase2 %d %d %d %s %d %s %s", shape, L, d, Cz(cls), reached, Cz(int64(depth)), Cbool(same)),
-					fmt.Sprintf("stack limit=%d shape=%d (%s) d=%d -> %s depthAtRest=%d repeatSame=%v", L, shape, call, d, res, depth, same), "stack-native", true)
+				addStack(env, runStack(shape, L, d), true)
+			}
+		}
+	}
+	for _, L := range []int{129, 257, 301} {
+		// frames: shape 1 = d, shape 2 = 1 + 3d, shapes 3 and 4 = 3d + 1
+		for _, d := range []int{L - 1, L} {
+			addStack(env, runStack(1, L, d), true)
+		}
+		for shape := 2; shape <= 4; shape++ {
+			for _, d := range []int{(L - 2) / 3, (L-2)/3 + 1} {
+				addStack(env, runStack(shape, L, d), true)
 			}
 		}
 	}
@@ -456,7 +405,9 @@ func main() {
 		_ = vm.Set("arm", func(c otto.FunctionCall) otto.Value { ich <- func() { panic(haltMsg) }; return otto.UndefinedValue() })
 		_ = vm.Set("nest", func(c otto.FunctionCall) otto.Value { v, _ := vm.Run(c.Argument(0).String()); return v })
 		ch := make(chan Outcome, 1)
-		go func() { ch <- RunJS(vm, `var after = 0; nest("arm()"); for (;;) { after++; if (after > 2000000) { break; } } after`) }()
+		go func() {
+			ch <- RunJS(vm, `var after = 0; nest("arm()"); for (;;) { after++; if (after > 2000000) { break; } } after`)
+		}()
 		stopped, asPanic, rest := false, false, false
 		select {
 		case o := <-ch:
@@ -557,6 +508,7 @@ func main() {
 		}
 	}
 	withScenarios(env)
+	bridgeScenarios(env)
 	for env.Count() < env.N {
 		budget := 4 + env.Rng.Intn(14)
 		if env.Tier == "thorough" {
@@ -624,6 +576,7 @@ func main() {
 			env.Add(coq, fmt.Sprintf("PCase host panic at call %d: %s => %s", j, src, r.String()), "hostpanic", true)
 		}
 	}
+	collectDeepStack(env, deep)
 	env.Extra["programs"] = progs
 	env.Finish()
 }
@@ -671,7 +624,6 @@ func stripStmt(s minijs.Stmt) minijs.Stmt {
 	}
 	return s
 }
-
 
 // ---- abnormal exits that cross a `with` statement (and nested try/finally): the scope chain must be back to the
 // function's own environment when a handler in the same activation goes on. The JavaScript text really raises the
@@ -755,6 +707,435 @@ func withScenarios(env *Env) {
 				env.Add(fmt.Sprintf("WCase %s %s %s", coq, Clist(log), Cbool(follow)),
 					fmt.Sprintf("WCase %s / %s / with (%s): %s => log=%v atRestAndFollowup=%v", ex.name, sh.name, wo.js, strings.ReplaceAll(src, "\n", " "), log, follow), "with-exit", true)
 				id++
+			}
+		}
+	}
+}
+
+// ---- stack-limit scenarios. shape 0: d nested script calls (StackCase); shapes 1..4: see StackCase2 in coq/C18/Corr.v.
+type stackObs struct {
+	shape, L, d int
+	call, res   string
+	cls         int64
+	reached     int
+	depth       int
+	same        bool
+	note        string
+}
+
+func runStack(shape, L, d int) stackObs {
+	ob := stackObs{shape: shape, L: L, d: d, res: "!", cls: 9}
+	vm := otto.New()
+	vm.SetStackDepthLimit(L)
+	_ = vm.Set("nest", func(c otto.FunctionCall) otto.Value {
+		v, err := vm.Run(c.Argument(0).String())
+		if err != nil {
+			r, _ := vm.ToValue("ERR:" + err.Error())
+			return r
+		}
+		return v
+	})
+	decl, call := stackProg(shape, d)
+	ob.call = call
+	src := fmt.Sprintf(`var reached = 0; %s var caught = "none"; try { %s; } catch (e) { caught = e.name; } caught + "," + reached`, decl, call)
+	o := RunJS(vm, src)
+	if o.Panic == nil && o.Err == nil {
+		ob.res = o.Val.String()
+	}
+	ob.depth, _ = vm.VerifScopeDepth()
+	var caught string
+	if parts := strings.Split(ob.res, ","); len(parts) == 2 {
+		caught = parts[0]
+		fmt.Sscanf(parts[1], "%d", &ob.reached)
+	}
+	switch caught {
+	case "none":
+		ob.cls = 0
+	case "RangeError":
+		ob.cls = 3
+	}
+	// the same call again after the RangeError must behave the same (depth restored)
+	o2 := RunJS(vm, fmt.Sprintf(`var c2 = "none"; reached = 0; try { %s; } catch (e) { c2 = e.name; } c2`, call))
+	ob.same = o2.Panic == nil && o2.Err == nil && o2.Val.String() == caught
+	return ob
+}
+
+func stackProg(shape, d int) (string, string) {
+	var decl, call string
+	switch shape {
+	case 0:
+		decl = `function f(n){ reached++; if (n > 1) { return f(n - 1); } return 0; }`
+		call = fmt.Sprintf("if (%d > 0) f(%d)", d, d)
+	case 3:
+		decl = `function f(n){ reached++; if (n > 0) { return (0, eval)("f(" + (n - 1) + ")"); } return 0; }`
+		call = fmt.Sprintf("f(%d)", d)
+	case 4:
+		decl = `function f(n){ reached++; if (n > 0) { var r = nest("f(" + (n - 1) + ")"); if (typeof r === "string" && r.indexOf("ERR:RangeError") === 0) { throw new RangeError("nested"); } return r; } return 0; }`
+		call = fmt.Sprintf("f(%d)", d)
+	case 1:
+		decl = `function f(n){ reached++; if (n > 1) { return f(n - 1); } var r = Math.abs(-1); return r; }`
+		call = fmt.Sprintf("f(%d)", d-1)
+		if d == 1 {
+			call = "Math.abs(-1)"
+		}
+	default:
+		decl = `function f(n){ reached++; if (n > 0) { return [n].map(g)[0]; } return 0; } function g(n){ reached++; return f(n - 1); }`
+		call = fmt.Sprintf("f(%d)", d)
+	}
+	return decl, call
+}
+
+func addStack(env *Env, ob stackObs, nontrivial bool) {
+	if ob.shape == 0 {
+		env.Add(fmt.Sprintf("StackCase %d %d %s %d %s %s", ob.L, ob.d, Cz(ob.cls), ob.reached, Cz(int64(ob.depth)), Cbool(ob.same)),
+			fmt.Sprintf("stack limit=%d nesting=%d -> %s depthAtRest=%d repeatSame=%v %s", ob.L, ob.d, ob.res, ob.depth, ob.same, ob.note), "stack", nontrivial)
+		return
+	}
+	env.Add(fmt.Sprintf("StackCase2 %d %d %d %s %d %s %s", ob.shape, ob.L, ob.d, Cz(ob.cls), ob.reached, Cz(int64(ob.depth)), Cbool(ob.same)),
+		fmt.Sprintf("stack limit=%d shape=%d (%s) d=%d -> %s depthAtRest=%d repeatSame=%v %s", ob.L, ob.shape, ob.call, ob.d, ob.res, ob.depth, ob.same, ob.note), "stack-native", nontrivial)
+}
+
+// Limits at and above the widths a narrowed depth counter would wrap at (15/16 bits), with nestings that reach them.
+// Tens of thousands of nested interpreter calls need hundreds of MB of Go stack, and a limit that fails to fire ends
+// in a fatal Go stack overflow that no recover can stop: each of these runs in a child process (this binary with
+// C18_STACK_CHILD=shape,L,d), a few at a time, while the parent goes on; a child that dies is an observation (class 9).
+const childEnv = "C18_STACK_CHILD"
+
+func stackChild(spec string) {
+	var shape, L, d int
+	if n, _ := fmt.Sscanf(spec, "%d,%d,%d", &shape, &L, &d); n != 3 {
+		os.Exit(3)
+	}
+	debug.SetMaxStack(3 << 30)
+	ob := runStack(shape, L, d)
+	fmt.Printf("RES\t%s\t%d\t%d\t%d\t%v\n", ob.res, ob.cls, ob.reached, ob.depth, ob.same)
+}
+
+type deepJob struct {
+	shape, L, d int
+	done        chan stackObs
+}
+
+func startDeepStack() []*deepJob {
+	var jobs []*deepJob
+	add := func(shape, L, d int) {
+		jobs = append(jobs, &deepJob{shape: shape, L: L, d: d, done: make(chan stackObs, 1)})
+	}
+	for _, L := range []int{32767, 32768, 32769, 65535, 65536, 65537} {
+		add(0, L, L-1)
+		add(0, L, L)
+	}
+	add(0, 70000, 69999)
+	add(0, 70000, 70000)
+	add(0, 70000, 80000)
+	// native frames in a deep chain: innermost (shape 1), and every third frame (shape 2: 1 + 3d frames)
+	add(1, 65537, 65536)
+	add(1, 65537, 65537)
+	add(2, 65537, 21845)
+	add(2, 65537, 21846)
+	exe, err := os.Executable()
+	sem := make(chan bool, 5)
+	for _, j := range jobs {
+		j := j
+		go func() {
+			sem <- true
+			defer func() { <-sem }()
+			ob := stackObs{shape: j.shape, L: j.L, d: j.d, res: "!", cls: 9}
+			_, ob.call = stackProg(j.shape, j.d)
+			if err != nil {
+				ob.note = "no executable: " + err.Error()
+				j.done <- ob
+				return
+			}
+			ctx, cancel := context.WithTimeout(context.Background(), 120*time.Second)
+			defer cancel()
+			cmd := exec.CommandContext(ctx, exe)
+			cmd.Env = append(os.Environ(), fmt.Sprintf("%s=%d,%d,%d", childEnv, j.shape, j.L, j.d))
+			out, cerr := cmd.Output()
+			got := false
+			for _, line := range strings.Split(string(out), "\n") {
+				f := strings.Split(line, "\t")
+				if len(f) == 6 && f[0] == "RES" {
+					ob.res = f[1]
+					fmt.Sscanf(f[2], "%d", &ob.cls)
+					fmt.Sscanf(f[3], "%d", &ob.reached)
+					fmt.Sscanf(f[4], "%d", &ob.depth)
+					ob.same = f[5] == "true"
+					got = true
+				}
+			}
+			if !got {
+				ob.cls, ob.depth, ob.same = 9, 0, false
+				ob.note = fmt.Sprintf("child process died without a result: %v", cerr)
+				if ee, ok := cerr.(*exec.ExitError); ok {
+					msg := string(ee.Stderr)
+					if i := strings.Index(msg, "\n"); i >= 0 {
+						msg = msg[:i]
+					}
+					if len(msg) > 200 {
+						msg = msg[:200]
+					}
+					ob.note += " (" + msg + ")"
+				}
+			}
+			j.done <- ob
+		}()
+	}
+	return jobs
+}
+
+func collectDeepStack(env *Env, jobs []*deepJob) {
+	for _, j := range jobs {
+		ob := <-j.done
+		if ob.note == "" {
+			ob.note = "(child process)"
+		}
+		addStack(env, ob, true)
+	}
+}
+
+// ---- host panics that travel through Go host functions (BCase). A panic of the host - raised by a host function the
+// script calls, by an interrupt function at a polling point, or by the host function itself - passes every Go frame
+// of the bridge (the reflect wrapper of typed functions, bound methods, func fields, map entries; Value.Call made by
+// native host functions) unchanged: with no try block of the script around the call, Run unwinds with that very
+// value. With a try block of the script around the call the recorded finding C18-try-intercepts applies, and then
+// the catch clause receives the host's own value (not something a Go wrapper made of it).
+type bridgeT struct {
+	F    func(n int, cb func(int))
+	tail func()
+}
+
+func (b bridgeT) Each(n int, cb func(int)) {
+	for i := 0; i < n; i++ {
+		cb(i)
+	}
+	b.tail()
+}
+
+func (b *bridgeT) PEach(n int, cb func(int)) {
+	for i := 0; i < n; i++ {
+		cb(i)
+	}
+	b.tail()
+}
+
+func bridgeScenarios(env *Env) {
+	type route struct {
+		id    int
+		name  string
+		call  string // %s = the callback expression
+		calls int    // callback invocations made by the host function (for the fault "host function panics after them")
+		goFn  bool   // entered from Go through Otto.Call (no surrounding script)
+	}
+	routes := []route{
+		{0, "native func(FunctionCall) calling Value.Call", "eachN(3, %s)", 3, false},
+		{1, "typed func(int, func(int))", "each(3, %s)", 3, false},
+		{2, "typed func(func())", "once(%s)", 1, false},
+		{3, "typed func(int, func(int) int) int", "mapper(3, %s)", 3, false},
+		{4, "typed variadic func(int, ...func(int)), two callbacks", "eachV(3, %s, function (i) { })", 3, false},
+		{5, "typed variadic, callbacks passed as one array", "eachV(3, [%s])", 3, false},
+		{6, "method of a bridged struct value", "obj.Each(3, %s)", 3, false},
+		{7, "method of a bridged struct pointer", "pobj.PEach(3, %s)", 3, false},
+		{8, "func-typed field of a bridged struct", "obj.F(3, %s)", 3, false},
+		{9, "func stored in a bridged map", "m.each(3, %s)", 3, false},
+		{10, "typed func(int, otto.Value) calling Value.Call", "viaValue(3, %s)", 3, false},
+		{11, "typed function through Function.prototype.call", "each.call(null, 3, %s)", 3, false},
+		{12, "typed function through Function.prototype.apply", "each.apply(null, [3, %s])", 3, false},
+		{13, "typed function through bind", "each.bind(null, 3)(%s)", 3, false},
+		{14, "typed function called from a callback of a built-in", "[3].forEach(function (n) { each(n, %s); })", 3, false},
+		{15, "typed function called from a callback of a typed function", "each(1, function () { each(3, %s); })", 3, false},
+		{16, "typed function as the callback of a built-in", "[3].forEach(function (n) { cbHolder = %s; }); [3].forEach(runHolder)", 1, false},
+		{17, "typed function entered from Go through Otto.Call", "%s", 3, true},
+		{18, "typed function returning (int, error) after the callbacks", "eachErr(3, %s)", 3, false},
+	}
+	faults := []struct {
+		id   int
+		name string
+		body string // what the callback does after seen++
+	}{
+		{0, "a func(FunctionCall) host function called by the callback panics", "boom();"},
+		{1, "an interrupt queued inside the callback panics at the next polling point", "arm(); for (;;) {}"},
+		{2, "an interrupt sent from another goroutine while the callback spins", "for (;;) {}"},
+		{3, "the host function itself panics after its callbacks returned", ""},
+		{4, "a typed func(int) host function called by the callback panics", "tboom(1);"},
+		{5, "a typed func(int) int host function used in an expression of the callback panics", "seen += tboomR(1) * 1000;"},
+	}
+	ctxs := []struct {
+		id        int
+		name      string
+		pre, post string
+	}{
+		{0, "no try block", "", ""},
+		{1, "try/catch around the call", "try { ", " } catch (e) { caught = (e === \"" + haltMsg + "\") ? 1 : 2; }"},
+		{2, "try/finally around the call", "try { ", " } finally { fin = 1; }"},
+	}
+	for _, rt := range routes {
+		for _, ft := range faults {
+			for _, cx := range ctxs {
+				if rt.goFn && cx.id != 0 {
+					continue
+				}
+				if ft.id == 2 && cx.id == 2 {
+					continue
+				}
+				after := false
+				vm := otto.New()
+				ich := make(chan func(), 1)
+				vm.Interrupt = ich
+				tail := func() {
+					if after {
+						panic(haltMsg)
+					}
+				}
+				each := func(n int, cb func(int)) {
+					for i := 0; i < n; i++ {
+						cb(i)
+					}
+					tail()
+				}
+				_ = vm.Set("each", each)
+				_ = vm.Set("eachN", func(c otto.FunctionCall) otto.Value {
+					n, _ := c.Argument(0).ToInteger()
+					for i := int64(0); i < n; i++ {
+						if _, err := c.Argument(1).Call(otto.UndefinedValue(), i); err != nil {
+							panic(err)
+						}
+					}
+					tail()
+					return otto.UndefinedValue()
+				})
+				_ = vm.Set("once", func(cb func()) { cb(); tail() })
+				_ = vm.Set("mapper", func(n int, cb func(int) int) int {
+					t := 0
+					for i := 0; i < n; i++ {
+						t += cb(i)
+					}
+					tail()
+					return t
+				})
+				_ = vm.Set("eachV", func(n int, cbs ...func(int)) {
+					for _, cb := range cbs {
+						for i := 0; i < n; i++ {
+							cb(i)
+						}
+					}
+					tail()
+				})
+				_ = vm.Set("eachErr", func(n int, cb func(int)) (int, error) {
+					for i := 0; i < n; i++ {
+						cb(i)
+					}
+					tail()
+					return n, nil
+				})
+				_ = vm.Set("obj", bridgeT{F: each, tail: tail})
+				_ = vm.Set("pobj", &bridgeT{tail: tail})
+				_ = vm.Set("m", map[string]interface{}{"each": each})
+				_ = vm.Set("viaValue", func(n int, v otto.Value) {
+					for i := 0; i < n; i++ {
+						if _, err := v.Call(otto.UndefinedValue(), i); err != nil {
+							panic(err)
+						}
+					}
+					tail()
+				})
+				_ = vm.Set("runHolder", func(n int, idx int, arr otto.Value) {
+					v, _ := vm.Get("cbHolder")
+					if _, err := v.Call(otto.UndefinedValue(), n); err != nil {
+						panic(err)
+					}
+					tail()
+				})
+				_ = vm.Set("boom", func(c otto.FunctionCall) otto.Value { panic(haltMsg) })
+				_ = vm.Set("tboom", func(n int) { panic(haltMsg) })
+				_ = vm.Set("tboomR", func(n int) int { panic(haltMsg) })
+				_ = vm.Set("arm", func(c otto.FunctionCall) otto.Value {
+					select {
+					case ich <- func() { panic(haltMsg) }:
+					default:
+					}
+					return otto.UndefinedValue()
+				})
+				cb := "function (i) { seen++; " + ft.body + " seen += 100; return 0; }"
+				calls := 1
+				if ft.id == 3 {
+					cb = "function (i) { seen++; return 0; }"
+					calls = rt.calls
+					after = true
+				}
+				prelude := "var seen = 0, caught = 0, fin = 0, after = 0, cbHolder;\n"
+				src := prelude + cx.pre + fmt.Sprintf(rt.call, cb) + ";" + cx.post + "\nafter = 1;"
+				ch := make(chan Outcome, 1)
+				if rt.goFn {
+					src = prelude + "var cbHolder = " + cb + ";"
+					if o0 := RunJS(vm, src); o0.Err != nil || o0.Panic != nil {
+						ch <- o0
+					} else {
+						src += "  then, from Go: vm.Call(\"each\", nil, 3, cbHolder)"
+						go func() {
+							ch <- Guard(func() (otto.Value, error) {
+								fn, _ := vm.Get("cbHolder")
+								return vm.Call("each", nil, 3, fn)
+							})
+						}()
+					}
+				} else {
+					go func() { ch <- RunJS(vm, src) }()
+				}
+				if ft.id == 2 {
+					go func() {
+						time.Sleep(15 * time.Millisecond)
+						select {
+						case ich <- func() { panic(haltMsg) }:
+						case <-time.After(5 * time.Second):
+						}
+					}()
+				}
+				ended := 4 // not stopped
+				how := "still running after 5s"
+				var seen, caught, fin, aft int64 = -1, -1, -1, -1
+				rest := false
+				select {
+				case o := <-ch:
+					switch {
+					case o.Panic != nil:
+						if s, ok := o.Panic.(string); ok && s == haltMsg {
+							ended, how = 0, "Run unwound with the host's panic"
+						} else {
+							ended, how = 3, fmt.Sprintf("Run unwound with another panic: %v", o.Panic)
+						}
+					case o.Err == nil:
+						ended, how = 1, "Run returned normally"
+					case o.Err.Error() == haltMsg:
+						ended, how = 2, "Run returned the host's value as an error"
+					default:
+						ended, how = 5, "Run returned the error "+o.Err.Error()
+					}
+					d, _ := vm.VerifScopeDepth()
+					labels := vm.VerifLabelCount()
+					select {
+					case <-ich:
+					default:
+					}
+					vm.Interrupt = nil
+					get := func(name string) int64 {
+						v, err := vm.Get(name)
+						if err != nil {
+							return -1
+						}
+						n, _ := v.ToInteger()
+						return n
+					}
+					seen, caught, fin, aft = get("seen"), get("caught"), get("fin"), get("after")
+					after = false
+					fo := RunJS(vm, `var t = 0; each(3, function (i) { t += i + 1; }); t * 7`)
+					n, _ := fo.Val.ToInteger()
+					rest = d == -1 && labels == 0 && fo.Err == nil && fo.Panic == nil && n == 42
+				case <-time.After(5 * time.Second):
+				}
+				env.Add(fmt.Sprintf("BCase %d %d %d %d %d %s %s %s %s %s", rt.id, ft.id, cx.id, calls, ended, Cz(seen), Cz(caught), Cz(fin), Cz(aft), Cbool(rest)),
+					fmt.Sprintf("BCase %s / %s / %s: %s => %s; seen=%d caught=%d fin=%d after=%d atRestAndFollowup=%v", rt.name, ft.name, cx.name, strings.ReplaceAll(src, "\n", " "), how, seen, caught, fin, aft, rest),
+					"host-function-bridge", true)
 			}
 		}
 	}
